@@ -64,6 +64,7 @@ func c09Cases(tier string, seed int64) []core.Case {
 		}
 		cases = append(cases, core.Case{ID: fmt.Sprintf("early-reply/dotu=%v", dotu), Run: func(ctx *core.Ctx) core.Result { return c09EarlyReply(ctx, dotu) }})
 		cases = append(cases, core.Case{ID: fmt.Sprintf("errors/dotu=%v", dotu), Run: func(ctx *core.Ctx) core.Result { return c09Errors(ctx, dotu) }})
+		cases = append(cases, core.Case{ID: fmt.Sprintf("renegotiated-then-concurrent/dotu=%v", dotu), Run: func(ctx *core.Ctx) core.Result { return c09Renegotiated(ctx, dotu) }})
 		cases = append(cases, core.Case{ID: fmt.Sprintf("refused-version/dotu=%v", dotu), Run: func(ctx *core.Ctx) core.Result { return c09VersionRefused(ctx, dotu) }})
 		cases = append(cases, core.Case{ID: fmt.Sprintf("tagiface/dotu=%v", dotu), Run: func(ctx *core.Ctx) core.Result { return c09TagIface(ctx, dotu, tier == "thorough") }})
 		cases = append(cases, core.Case{ID: fmt.Sprintf("tagiface-all-operations/dotu=%v", dotu), Run: func(ctx *core.Ctx) core.Result { return c09TagMixed(ctx, dotu, tier == "thorough") }})
@@ -650,6 +651,108 @@ func c09Errors(ctx *core.Ctx, dotu bool) core.Result {
 	res.Sample(map[string]interface{}{"scenario": "errors", "dotu": dotu, "rerror_calls": 200})
 	peerProblems(&res, s.p, "errors")
 	conservation(&res, s, 0, "errors")
+	return res
+}
+
+// c09Renegotiated: version exchanges in the middle of a session (a Tversion sent through Rpc, as a client that resets
+// its session does), each between bursts of concurrent calls that the peer answers newest first. Whatever the client
+// recycles between the calls, the tags outstanding at any moment differ pairwise (the peer checks) and every call
+// returns its own data.
+func c09Renegotiated(ctx *core.Ctx, dotu bool) core.Result {
+	var res core.Result
+	s, err := connect(8192, dotu, false)
+	if err != nil {
+		res.Inconclusive = "c09: " + err.Error()
+		return res
+	}
+	defer s.close()
+	r := core.NewRand(ctx.Seed, fmt.Sprintf("c09reneg/%v", dotu))
+	singleOnly = true
+	defer func() { singleOnly = false }()
+	ver := "9P2000"
+	if s.c.Dotu {
+		ver = "9P2000.u"
+	}
+	id := uint32(0)
+	burst := func(k int, what string) bool {
+		calls := make([]call, k)
+		results := make([]string, k)
+		var wg sync.WaitGroup
+		for i := 0; i < k; i++ {
+			id++
+			calls[i] = mkcall(r, id, 300)
+			wg.Add(1)
+			go func(i int) {
+				defer wg.Done()
+				results[i] = s.do(calls[i])
+			}(i)
+		}
+		reqs := s.p.Collect(k, W)
+		res.Evals++
+		if len(reqs) != k {
+			res.Violate("C09;requests-missing;renegotiated", fmt.Sprintf("%d concurrent calls %s produced only %d requests", k, what, len(reqs)), nil)
+			return false
+		}
+		seen := map[uint16]bool{}
+		for _, q := range reqs {
+			if seen[q.Msg.Tag] {
+				res.Violate("C09;tag-reused-while-outstanding;renegotiated", fmt.Sprintf("%d concurrent calls %s: two of them carry tag %d", k, what, q.Msg.Tag), nil)
+			}
+			seen[q.Msg.Tag] = true
+		}
+		for i := k - 1; i >= 0; i-- {
+			s.p.Reply(reqs[i], s.p.Answer(reqs[i].Msg))
+		}
+		done := make(chan struct{})
+		go func() { wg.Wait(); close(done) }()
+		select {
+		case <-done:
+		case <-time.After(W):
+			res.Inconclusive = "c09: calls did not return (C10's concern)"
+			return false
+		}
+		for i, e := range results {
+			if e != "" {
+				res.Violate("C09;wrong-result;renegotiated;"+calls[i].kind, fmt.Sprintf("%d concurrent calls %s, answered newest first: %s", k, what, e), nil)
+				return false
+			}
+		}
+		return true
+	}
+	for round := 0; round < 6 && len(res.Violations) == 0; round++ {
+		if !burst(2+round%3, fmt.Sprintf("before version exchange %d", round+1)) {
+			break
+		}
+		// the version exchange
+		tc := go9p.NewFcall(8192)
+		if e := go9p.PackTversion(tc, 8192, ver); e != nil {
+			res.Inconclusive = "c09: PackTversion: " + e.Error()
+			return res
+		}
+		vdone := make(chan error, 1)
+		go func() { _, e := s.c.Rpc(tc); vdone <- e }()
+		vr := s.p.Collect(1, W)
+		if len(vr) != 1 || vr[0].Msg.Type != wire.Tversion {
+			res.Inconclusive = "c09: the Tversion did not reach the peer"
+			return res
+		}
+		s.p.Reply(vr[0], s.p.Answer(vr[0].Msg))
+		select {
+		case e := <-vdone:
+			if e != nil {
+				res.Violate("C09;version-exchange-failed", "a Tversion through Rpc answered with Rversion returned "+e.Error(), nil)
+			}
+		case <-time.After(W):
+			res.Inconclusive = "c09: the version exchange did not return"
+			return res
+		}
+		if !burst(2+(round+1)%4, fmt.Sprintf("after version exchange %d", round+1)) {
+			break
+		}
+		res.Sig(fmt.Sprintf("renegotiated|%v|%d", dotu, round%3))
+	}
+	res.Sample(map[string]interface{}{"scenario": "version exchanges between bursts of concurrent calls answered newest first", "dotu": dotu})
+	peerProblems(&res, s.p, "renegotiated")
 	return res
 }
 
